@@ -330,6 +330,10 @@ static void run_C13(const Args &a, long cs) {
 	std::vector<double> w = p.w, lam = p.lam; std::vector<std::vector<double>> co = p.co, kn = p.kn; std::vector<uint32_t> ord = p.ord, por = p.por;
 	std::vector<std::vector<unsigned>> idx = p.idx; std::vector<unsigned> ranges; for (int d = 0; d < p.nd; d++) ranges.push_back((unsigned)p.co[d].size());
 	uint32_t monodim = Table::no_monodim;
+	if (r.coin(0.3)) { // one shared smoothing / penalty-order entry for all dimensions (orders differ between dimensions: the shared penalty order may exceed some of them)
+		uint32_t mx = 0; for (auto o : ord) mx = std::max(mx, o);
+		lam.assign(1, r.coin(0.2) ? 0.0 : std::pow(10.0, (double)r.range(-3, 3))); por.assign(1, (uint32_t)r.below(mx + 3)); count("tuples-with-shared-penalty-arguments");
+	}
 	bool must_reject = false; std::vector<std::string> applied;
 	int ncorr = cs % 7 == 0 ? 0 : (r.coin(0.25) ? 2 : 1);
 	for (int q = 0; q < ncorr; q++) {
@@ -413,13 +417,16 @@ static void run_C13(const Args &a, long cs) {
 	}
 	// C wrapper: non-zero return for every must-reject tuple the C signature can express (array counts are implied by data->ndim there)
 	bool c_expressible = co.size() == (size_t)p.nd && ord.size() == (size_t)p.nd && kn.size() == (size_t)p.nd && lam.size() == (size_t)p.nd && por.size() == (size_t)p.nd && w.size() == idx.size();
+	std::vector<double> lamC = lam; std::vector<uint32_t> porC = por;
+	if (!c_expressible && lam.size() == 1 && por.size() == 1 && co.size() == (size_t)p.nd && ord.size() == (size_t)p.nd && kn.size() == (size_t)p.nd && w.size() == idx.size()) { lamC.assign(p.nd, lam[0]); porC.assign(p.nd, por[0]); c_expressible = true; }
+	Exact<double> lamCE(lamC); Exact<uint32_t> porCE(porC);
 	bool c_must_reject = false; for (auto &s : applied) if (s == "index-outside-declared-range" || s == "knots-unsorted" || s == "too-few-knots-for-order" || s == "monodim-out-of-range" || (s == "huge-order" && must_reject)) c_must_reject = true;
 	bool skipC = false; for (auto &s : applied) if (s == "coordinate-vector-shorter-than-range" || s == "declared-range-longer-than-coordinates") skipC = true; // not detectable through raw pointers
 	if (c_expressible && !skipC) {
 		splinetable hnd; splinetable_init(&hnd);
 		std::vector<const double *> cp, kp; std::vector<uint64_t> nk; for (int d = 0; d < p.nd; d++) { cp.push_back(coE[d]->p); kp.push_back(knE[d]->p); nk.push_back(knE[d]->n); }
 		phase_log("C:splinetable_glamfit");
-		int rc = splinetable_glamfit(&hnd, data, wE.p, cp.data(), ordE.p, kp.data(), nk.data(), lamE.p, porE.p, monodim, false);
+		int rc = splinetable_glamfit(&hnd, data, wE.p, cp.data(), ordE.p, kp.data(), nk.data(), lamCE.p, porCE.p, monodim, false);
 		count("C-wrapper-calls");
 		if (c_must_reject && rc == 0) viol("C13:C:splinetable_glamfit:returned-0-for-inconsistent-arguments:" + applied[0], dj);
 		if (rc != 0 && splinetable_ndim(&hnd) != 0) viol("C13:C:splinetable_glamfit:failure-left-table-changed", dj);
